@@ -146,9 +146,12 @@ fn write_reply(s: &mut TcpStream, r: &Reply, port: u16) {
     };
     let mut head = format!("HTTP/1.1 {} {}\r\n", r.status, reason).into_bytes();
     if let Some(ct) = &r.ct {
-        head.extend_from_slice(b"Content-Type: ");
-        head.extend_from_slice(ct);
-        head.extend_from_slice(b"\r\n");
+        // line feeds separate the values of SEVERAL Content-Type headers
+        for one in ct.split(|c| *c == b'\n') {
+            head.extend_from_slice(b"Content-Type: ");
+            head.extend_from_slice(one);
+            head.extend_from_slice(b"\r\n");
+        }
     }
     if r.fault == "location" || r.status == 302 {
         head.extend_from_slice(format!("Location: http://127.0.0.1:{}/redirected\r\n", port).as_bytes());
